@@ -17,6 +17,8 @@
 package transform
 
 import (
+	"fmt"
+
 	"github.com/compose-spec/compose-go/v2/tree"
 )
 
@@ -29,11 +31,15 @@ func transformService(data any, p tree.Path, ignoreParseError bool) (any, error)
 	}
 }
 
-func transformServiceNetworks(data any, _ tree.Path, _ bool) (any, error) {
+func transformServiceNetworks(data any, p tree.Path, _ bool) (any, error) {
 	if slice, ok := data.([]any); ok {
 		networks := make(map[string]any, len(slice))
 		for _, net := range slice {
-			networks[net.(string)] = nil
+			name, ok := net.(string)
+			if !ok {
+				return nil, fmt.Errorf("%s: unsupported value %v", p, net)
+			}
+			networks[name] = nil
 		}
 		return networks, nil
 	}
